@@ -315,6 +315,9 @@ def tyContexts (hasLt : Bool) : List (Ty → Ty) :=
    fun t => .slice t, fun t => .array t (.lit "3"), fun t => .tuple [t], fun t => .tuple [Ty.simple "u8", t],
    fun t => .tuple [t, Ty.simple "u8"], fun t => .bareFn [t] none, fun t => .bareFn [] (some t),
    fun t => .bareFn [Ty.simple "u8", t] (some (Ty.simple "u8")), fun t => .paren t,
+   -- parentheses directly under a reference / pointer (needed or not): nothing but the parentheses may go
+   fun t => .ref (some "'static") false (.paren t), fun t => .ref (some "'static") true (.paren t), fun t => .ptr false (.paren t),
+   fun t => .paren (.ref (some "'static") false t),
    fun t => .prefixed ["for", "<", "'x", ">"] (.bareFn [.ref (some "'x") false t] none),
    fun t => .prefixed ["unsafe", "extern", "\"C\""] (.bareFn [t] (some t)),
    fun t => Ty.app "Box" [.dynT false [.mk "Tr2" [.ty t]]], fun t => Ty.app "Box" [.dynT false [.mk "Tr2" [.ty t]] [["Send"]]],
